@@ -72,9 +72,19 @@ def slim(case):
     return {k: case[k] for k in ('chain', 'kind', 'tag', 'direct', 'to_empty') if k in case}
 
 
-def classify_cmp(cmpres, chain_texts, i):
+def classify_cmp(cmpres, chain_texts, i, script=None):
     """a chain-vs-direct difference that is the residue of a C02 known finding"""
     items = G._diff_items(cmpres) if isinstance(cmpres, dict) else set()
+    if isinstance(cmpres, dict) and 'sdl_diff' in cmpres and 'dump_diff' not in cmpres and 'own_diff' not in cmpres:
+        # structurally equal, DESCRIBE text differs
+        if cmpres.get('sdl_diff_kind') == 'only-explicit-default-values':
+            return 'C10-sdl-explicit-default-residue'
+        return None
+    if items and items <= {('Property', 'inherited_fields'), ('Link', 'inherited_fields')} and cmpres.get('own_diff') == '' \
+            and any('on target delete restrict' in t for t in chain_texts[:i + 1]):
+        return 'C02-explicit-default-on-target-delete'
+    if G.set_owned_then_renamed(script) and any(it[1] in ('missing-in-result', 'owned') for it in items):
+        return 'C02-set-owned-then-parent-rename'
     if items and items <= {('Constraint', 'errmessage'), ('Constraint', 'inherited_fields')} \
             and any('errmessage' in t for t in chain_texts[:i]):
         return 'C02-errmessage-reset'
@@ -104,6 +114,7 @@ def judge(case, res, known):
         return [('harness', None, 'harness error: ' + json.dumps(res['harness_error'])[:300], {'case': slim(case)})]
     steps = res['steps']
     n = len(case['chain'])
+    chain_fid = None          # finding that made this chain diverge from the direct path (first divergence)
     for i, st in enumerate(steps):
         is_empty_step = case.get('to_empty') and i == n
         target = 'module default {}' if is_empty_step else case['chain'][i]
@@ -126,8 +137,14 @@ def judge(case, res, known):
                                 f'step {i} of the chain is accepted but the DIRECT migration from the empty database to '
                                 f'the same schema is rejected: {(d.get("err") or {}).get("msg", "")[:140]}',
                                 {'case': slim(case), 'step': i, 'observed': d}))
+            elif d['cmp'] == 'eq':
+                chain_fid = None
             elif d['cmp'] != 'eq':
-                fid = classify_cmp(d['cmp'], case['chain'], i)
+                fid = classify_cmp(d['cmp'], case['chain'], i, st.get('script'))
+                if fid is None and chain_fid in known:
+                    fid = chain_fid       # residue: the chain already diverged at an earlier step by this known finding
+                elif fid is not None:
+                    chain_fid = fid
                 out.append(('known' if fid in known else 'violation', fid,
                             f'path dependence: after step {i} the chain schema differs from the directly migrated one: '
                             + brief(d['cmp']),
@@ -148,6 +165,8 @@ def brief(v):
         parts.append('delta_schemas(chain, direct) = ' + (v['own_diff'][:120] or '<non-empty delta without DDL text>'))
     for d in v.get('dump_diff', [])[:2]:
         parts.append(' '.join(str(x)[:80] for x in d[:3]))
+    if v.get('sdl_diff'):
+        parts.append('SDL text differs: ' + ' | '.join(l.strip() for l in v['sdl_diff'] if l[:1] in '+-' and l[:3] not in ('+++', '---'))[:240])
     return '; '.join(parts)
 
 
